@@ -30,3 +30,11 @@ Definition seeds_of (handed : list seed) : list seed := filter (fun s => parses 
 Definition auto_finished (handed : list seed) : list bytes :=
   map sd_id (filter (fun s => negb (parses (sd_raw s))) handed).
 End Consumer.
+
+(* hq/consumer.go getURLs: one fetch round is ONE Get (--hq-batch-concurrency 1) or k concurrent
+   Gets of batchSize/k URLs each.  A sub-fetch either returns the URLs the HQ handed out (and has
+   marked as claimed by this crawler) or fails (5xx, reset, timeout, empty feed): [None].  The
+   results are listed in the order the sub-fetches completed (a scheduling choice carried by the
+   list).  What the round passes on is everything every successful sub-fetch received. *)
+Definition round_urls {U : Type} (results : list (option (list U))) : list U :=
+  flat_map (fun r => match r with Some us => us | None => [] end) results.
